@@ -359,7 +359,20 @@ fn one_value(c: &mut Ctx, fam: &str, idx: u64, rng: &mut Rng, t: u16, fs: &[Fv],
 /// that also accepts.
 fn one_mutant(c: &mut Ctx, fam: &str, idx: u64, rng: &mut Rng, t: u16, fs: &[Fv]) {
     let mut wire = w::compose_fields(fs);
-    for _ in 0..rng.range(1, 3) {
+    // nested structures: intact framing, inner values of the wrong width for their key or code
+    let nested = match t {
+        64 | 65 if rng.bool() => {
+            wire = vec![0, 1, 0];
+            wire.extend(g::hostile_svcparams(rng));
+            true
+        }
+        41 if rng.bool() => {
+            wire = g::hostile_options(rng);
+            true
+        }
+        _ => false,
+    };
+    for _ in 0..(if nested { 0 } else { rng.range(1, 3) }) {
         if wire.is_empty() {
             wire.push(rng.u8());
             continue;
@@ -425,7 +438,10 @@ fn one_mutant(c: &mut Ctx, fam: &str, idx: u64, rng: &mut Rng, t: u16, fs: &[Fv]
                     }
                     c.count("mutants_both_accept", 1);
                 }
-                let _ = format!("{}", v);
+                let _ = format!("{} {:?}", v, v);
+                if nested {
+                    c.count("mutants_nested_accepted", 1);
+                }
             }
             Err(_) => c.count("mutants_rejected", 1),
         }
